@@ -135,6 +135,8 @@ def __array_ufunc__(self, ufunc, method, *args, out=None, **kwargs):
         if isinstance(args[0], type(self)):
             try:
                 exponent = int(args[1])
+                if exponent != args[1]:
+                    return NotImplemented
             except:
                 return NotImplemented
             metadata = copy.copy(args[0]._metadata)
